@@ -29,7 +29,7 @@ Proof. exact perm_invariant. Qed.
 
 (* ---- recoding the treatment as 1 - A (target population, stabilisation constant and missingness constants follow):
    arm-a quantity -> arm-(not a) quantity; differences negated, ratios inverted; variances on the difference and
-   log-odds-ratio scale unchanged; TMLE's log-risk-ratio variance unchanged when no outcome is missing *)
+   log-odds-ratio scale unchanged; TMLE's log-risk-ratio variance unchanged (missing outcomes included) *)
 Theorem C08_swap_treatment : forall l,
   let l' := map swap_row l in
   (forall stab t n c1 c0 a, iptw_mu stab (swap_target t) (1 - n) c0 c1 a l' == iptw_mu stab t n c1 c0 (negb a) l) /\
@@ -47,18 +47,14 @@ Theorem C08_swap_treatment : forall l,
      sw_var_lnrr (total_w stab (swap_target t) (1 - n) c0 c1) l' == sw_var_lnrr (total_w stab t n c1 c0) l /\
      sw_var_lnor (total_w stab (swap_target t) (1 - n) c0 c1) l' == sw_var_lnor (total_w stab t n c1 c0) l) /\
   (aipw_var_rd l' == aipw_var_rd l) /\
-  (tmle_var_rd l' == tmle_var_rd l /\ tmle_var_lnor l' == tmle_var_lnor l /\
-   (EstimatorsProofs.complete l -> tmle_var_lnrr l' == tmle_var_lnrr l)).
+  (tmle_var_rd l' == tmle_var_rd l /\ tmle_var_lnor l' == tmle_var_lnor l /\ tmle_var_lnrr l' == tmle_var_lnrr l).
 Proof. exact swap_treatment. Qed.
 
-(* ---- the two places where the source's influence curve is NOT equivariant (the models mirror the source term by
-   term; C06 ties them to the reported SE): AIPTW's log-risk-ratio variance, and TMLE's with missing outcomes *)
+(* ---- the place where the source's influence curve is NOT equivariant (the model mirrors the source term by term;
+   C06 ties it to the reported SE): AIPTW's log-risk-ratio variance (known finding AIPTW.swap.risk_ratio_se) *)
 Theorem C08_aipw_lnrr_variance_not_swap_invariant :
   exists l, EstimatorsProofs.complete l /\ ~ aipw_var_lnrr (map swap_row l) == aipw_var_lnrr l.
 Proof. exact aipw_var_lnrr_swap_fails. Qed.
-Theorem C08_tmle_lnrr_variance_not_swap_invariant_with_missing :
-  exists l, ~ tmle_var_lnrr (map swap_row l) == tmle_var_lnrr l.
-Proof. exact tmle_var_lnrr_swap_fails_with_missing. Qed.
 
 (* ---- change of units y -> c y + d (every c, in particular c != 0 of both signs, every d): mean differences are
    multiplied by c and do not depend on d, variances are multiplied by c^2 (standard errors by |c|) *)
@@ -233,7 +229,6 @@ Qed.
 Print Assumptions C08_perm_invariant.
 Print Assumptions C08_swap_treatment.
 Print Assumptions C08_aipw_lnrr_variance_not_swap_invariant.
-Print Assumptions C08_tmle_lnrr_variance_not_swap_invariant_with_missing.
 Print Assumptions C08_scale_outcome.
 Print Assumptions C08_scale_arm_means.
 Print Assumptions C08_relabel_strata.
